@@ -168,6 +168,10 @@ def energy_mode(chk, mod):
     chk.function(MOD, '_find_inelastic_inputs')
     bad = []
     n = 0
+    if not callable(getattr(mod, '_deduce_energy_mode', None)):
+        # the deduction is not a module-level function of that name any more: the contracts of deduce_conversion_graph / convert and the
+        # stand-in on real data decide
+        raise core.Unsupported(f'{MOD} has no function _deduce_energy_mode')
     for origin, target, ei, ef in itertools.product(ORIGINS, TARGETS, (False, True), (False, True)):
         names = [x for x, h in (('incident_energy', ei), ('final_energy', ef)) if h] + ['position']
         want = spec_mode(origin, target, ei, ef)
